@@ -5,6 +5,7 @@ CONSTANTS
   Width = 1
   Foreigns = TRUE
   Wraps = FALSE
+  RefWraps = FALSE
   WrapMax = 0
   ForeignVals <- ForeignValsQuick
   ForeignBase <- ForeignBaseQuick
